@@ -42,4 +42,30 @@ PROPS = {
         ],
         "trusted_base": ["Kani 0.68 + CBMC 6.11 (loop-free or unwinding-assertion-closed harnesses over full-domain symbolic inputs)"],
     },
+    "C12": {
+        "level": "proof",
+        "level_text": "Verus proves, for every buffer content, capacity and request size, that each Conduit transition keeps the bounded-FIFO invariant, delivers/appends exactly the stated prefixes in order, reports EOF/BrokenPipe after close and leaves no waiter registered after progress; Kani proves that emptying the waker slot calls Waker::wake, that dropping either end closes and wakes, and the coop yield self-wakes",
+        "level_note": "every access to the Conduit is under one parking_lot mutex (trusted), so transitions are atomic; shims for BytesMut/ReadBuf/Waker/Context are assumed contracts; Kani wrapper harnesses use capacity<=4 and single-byte payloads (the data-path generality is the Verus unit's)",
+        "technique": "contract-based deductive verification: Verus on extracted real functions + Kani contract harnesses on the real crate",
+        "components": [
+            {"kind": "vx", "unit": "conduit"},
+            {"kind": "kx", "name": "channel", "package": "swimos_byte_channel", "crate_dir": "swimos_utilities/swimos_byte_channel",
+             "attach": "src/channel/mod.rs", "harness_file": "kx/swimos_byte_channel/channel.rs",
+             "harnesses": ["conduit_wake", "conduit_close"],
+             "functions": [{"fn": f, "file": "swimos_utilities/swimos_byte_channel/src/channel/mod.rs"} for f in
+                           ["Conduit::wake", "Conduit::close_channel", "<ByteWriter as Drop>::drop", "<ByteReader as Drop>::drop",
+                            "<ByteReader as AsyncRead>::poll_read", "<ByteWriter as AsyncWrite>::{poll_write,poll_flush,poll_shutdown}", "ByteWriter::is_closed"]],
+             "assumptions": ["parking_lot::Mutex executed as real code, single-threaded", "wrapper harnesses: capacity 1..4, one-byte payloads"]},
+            {"kind": "kx", "name": "coop", "package": "swimos_byte_channel", "crate_dir": "swimos_utilities/swimos_byte_channel",
+             "attach": "src/coop/mod.rs", "harness_file": "kx/swimos_byte_channel/coop.rs",
+             "functions": [{"fn": f, "file": "swimos_utilities/swimos_byte_channel/src/coop/mod.rs"} for f in ["consume_budget", "track_progress"]],
+             "assumptions": ["thread-local budget cell treated as a plain static by Kani"]},
+        ],
+        "assumptions": [
+            "mutual exclusion of parking_lot::Mutex (every Conduit access is under inner.lock())",
+            "ghost histories written/read are connected to the contracts by spec-level lemmas (lemma_fifo_write / lemma_fifo_read), not by instrumenting the code",
+            "the executor polls a task again after its waker is woken (tokio, not verified)",
+        ],
+        "trusted_base": COMMON_TRUSTED + ["Kani 0.68 + CBMC 6.11"],
+    },
 }
